@@ -189,6 +189,24 @@ pub fn run_case_c05(rng: &mut Rng, out: &mut CaseOut, max_len: usize, all_cuts: 
         out.sig(&format!("{op:?}"));
     }
     let base = State { ids: final_state.ids.clone(), ..Default::default() };
+    if out.verbose {
+        eprintln!("config: {cfg:?}\n mode {mode_name} crash_after {crash_after:?}");
+        for st in &script {
+            eprintln!("  step {st:?}");
+        }
+        eprintln!(" ids {:?}", final_state.ids);
+        for (i, (t, op)) in log.iter().enumerate() {
+            eprintln!(" store[{i}] t={t} {op:?}");
+        }
+        for (l, h) in obs.rec.map_hist.iter().enumerate() {
+            eprintln!(" map history {l}: {h:?}");
+        }
+        for (si, se) in obs.sessions.iter().enumerate() {
+            for f in &se.log.lock().frames {
+                eprintln!(" session {si} <- t={} {:?} {} {:?}", f.ticket, f.kind, f.lane, String::from_utf8_lossy(&f.body));
+            }
+        }
+    }
 
     // Transient items never reach the store.
     for (_, name) in &id_requests {
@@ -350,9 +368,25 @@ pub fn run_case_c05(rng: &mut Rng, out: &mut CaseOut, max_len: usize, all_cuts: 
                         None => removed_at[l].get(key).map_or(false, |ts| ts.iter().any(|rt| *rt > seen_t)),
                     };
                     if !ok {
+                        // The store did hold this entry and then lost it to a clear / remove that the lane had
+                        // executed *before* the update (the removal reached the store after the newer update:
+                        // a targeted sync event, which is persisted too, overtook the older standard event).
+                        let lane_name = if l == 0 { M1 } else { M2 };
+                        let overtaken = base.id(lane_name).map_or(false, |id| {
+                            let key_text: Vec<u8> = if l == 0 { format!("k{key}").into_bytes() } else { format!("{key}").into_bytes() };
+                            let val_text = format!("{value}").into_bytes();
+                            let stored_at = log[..k].iter().position(|(_, op)| matches!(op, Op::UpdateMap { id: i, key: kk, value: vv } if *i == id && *kk == key_text && *vv == val_text));
+                            stored_at.map_or(false, |p| {
+                                log[p + 1..k].iter().any(|(_, op)| match op {
+                                    Op::ClearMap { id: i } => *i == id,
+                                    Op::RemoveMap { id: i, key: kk } => *i == id && *kk == key_text,
+                                    _ => false,
+                                })
+                            })
+                        });
                         out.violation(
                             "C05",
-                            format!("published-newer-than-stored/map/{}", if k == n { "surviving-store" } else { "cut" }),
+                            format!("published-newer-than-stored/map/{}{}", if k == n { "surviving-store" } else { "cut" }, if overtaken { "/older-removal-stored-after-newer-update" } else { "" }),
                             "a remote had already received a map entry of a persistent lane that the store (as it would be after a crash at this point) does not reflect",
                             json!({"cut": k, "of": n, "lane": l, "key": key, "value": value, "frame_ticket": t, "stored": format!("{:?}", stored.get(key))}),
                         );
